@@ -18,24 +18,17 @@ Definition Ratan2 (y x : R) : R :=
   else if Rlt_dec x 0 then (if Rle_dec 0 y then atan (y / x) + PI else atan (y / x) - PI)
   else if Rlt_dec 0 y then PI / 2 else if Rlt_dec y 0 then - PI / 2 else 0.
 
-Definition Rdyadic (m e : Z) : R :=
-  match e with
-  | Z0 => IZR m
-  | Zpos p => IZR m * IZR (Z.pow_pos 2 p)
-  | Zneg p => IZR m / IZR (Z.pow_pos 2 p)
-  end.
-
 Definition NumR : Num := {|
-  T := R; zero := 0; one := 1; npi := PI; ofZ := IZR; dyadic := Rdyadic;
-  add := Rplus; sub := Rminus; mul := Rmult; div := Rdiv; opp := Ropp;
+  T := R; nzero := 0; none := 1; npi := PI; nofZ := IZR;
+  nadd := Rplus; nsub := Rminus; nmul := Rmult; ndiv := Rdiv; nopp := Ropp;
   nabs := Rabs; nsqrt := sqrt; nexp := exp; ncos := cos; nsin := sin;
   nacos := acos; natan := atan; npow := Rpow; natan2 := Ratan2;
-  ltb := Rltb; leb := Rleb; eqb := Reqb |}.
+  nltb := Rltb; nleb := Rleb; neqb := Reqb |}.
 
 (* unfold the dictionary projections so that ring / field / lra see plain R terms *)
 Ltac numR :=
-  cbv [T zero one npi ofZ dyadic add sub mul div opp nabs nsqrt nexp ncos nsin nacos
-       natan npow natan2 ltb leb eqb NumR] in *.
+  cbv [T nzero none npi nofZ nadd nsub nmul ndiv nopp nabs nsqrt nexp ncos nsin nacos
+       natan npow natan2 nltb nleb neqb NumR] in *.
 
 Lemma Rltb_true x y : Rltb x y = true <-> x < y.
 Proof. unfold Rltb; destruct (Rlt_dec x y); split; intros; try easy. Qed.
